@@ -37,6 +37,9 @@
 #include "ref_smooth.h"
 #include "ref_sort.h"
 #include "ref_subdiv.h"
+#ifdef NASA_REFINE_VERIF
+#include "ref_verif.h"
+#endif
 
 #define MAX_CELL_SPLIT (100)
 
@@ -174,6 +177,9 @@ REF_FCN REF_STATUS ref_split_pass(REF_GRID ref_grid) {
     weight_node1 = MIN(0.95, MAX(0.05, weight_node1));
     if (transcript) printf("weight_node1 %f\n", weight_node1);
 
+#ifdef NASA_REFINE_VERIF
+    ref_verif_op("begin", "split_trial", ref_grid, node0, node1, REF_EMPTY);
+#endif
     RSS(ref_node_next_global(ref_node, &global), "next global");
     RSS(ref_node_add(ref_node, global, &new_node), "new node");
     RSS(ref_node_interpolate_edge(ref_node, node0, node1, weight_node1,
@@ -249,6 +255,9 @@ REF_FCN REF_STATUS ref_split_pass(REF_GRID ref_grid) {
       } else {
         RSS(ref_node_remove(ref_node, new_node), "remove new node");
         RSS(ref_geom_remove_all(ref_grid_geom(ref_grid), new_node), "rm");
+#ifdef NASA_REFINE_VERIF
+        ref_verif_op("reject", "split_trial", ref_grid, node0, node1, new_node);
+#endif
         continue;
       }
     }
@@ -294,6 +303,9 @@ REF_FCN REF_STATUS ref_split_pass(REF_GRID ref_grid) {
           RSS(ref_cavity_replace(ref_cavity), "cav replace");
           RSS(ref_cavity_free(ref_cavity), "cav free");
           ref_cavity = (REF_CAVITY)NULL;
+#ifdef NASA_REFINE_VERIF
+          ref_verif_op("accept", "split_trial", ref_grid, node0, node1, new_node);
+#endif
           ref_node_age(ref_node, node0) = 0;
           ref_node_age(ref_node, node1) = 0;
           RSS(ref_smooth_post_edge_split(ref_grid, new_node),
@@ -314,6 +326,9 @@ REF_FCN REF_STATUS ref_split_pass(REF_GRID ref_grid) {
       ref_cavity = (REF_CAVITY)NULL;
       RSS(ref_node_remove(ref_node, new_node), "remove new node");
       RSS(ref_geom_remove_all(ref_grid_geom(ref_grid), new_node), "rm");
+#ifdef NASA_REFINE_VERIF
+      ref_verif_op("reject", "split_trial", ref_grid, node0, node1, new_node);
+#endif
       continue;
     }
 
@@ -328,6 +343,9 @@ REF_FCN REF_STATUS ref_split_pass(REF_GRID ref_grid) {
       }
       RSS(ref_node_remove(ref_node, new_node), "remove new node");
       RSS(ref_geom_remove_all(ref_grid_geom(ref_grid), new_node), "rm");
+#ifdef NASA_REFINE_VERIF
+      ref_verif_op("reject", "split_trial", ref_grid, node0, node1, new_node);
+#endif
       continue;
     }
 
@@ -336,9 +354,15 @@ REF_FCN REF_STATUS ref_split_pass(REF_GRID ref_grid) {
     if (REF_INCREASE_LIMIT == status) {
       RSS(ref_node_remove(ref_node, new_node), "remove new node");
       RSS(ref_geom_remove_all(ref_grid_geom(ref_grid), new_node), "rm");
+#ifdef NASA_REFINE_VERIF
+      ref_verif_op("reject", "split_trial", ref_grid, node0, node1, new_node);
+#endif
       continue;
     }
     RSS(status, "tet edge split");
+#ifdef NASA_REFINE_VERIF
+    ref_verif_op("accept", "split_trial", ref_grid, node0, node1, new_node);
+#endif
 
     if (transcript)
       RSS(ref_split_edge_ratio_post_report(ref_grid, node0, node1, new_node),
@@ -405,6 +429,9 @@ REF_FCN REF_STATUS ref_split_edge(REF_GRID ref_grid, REF_INT node0,
                                cell_to_split);
   if (REF_INCREASE_LIMIT == status) return status;
   RSS(status, "tet list to split");
+#ifdef NASA_REFINE_VERIF
+  ref_verif_op("begin", "split_edge", ref_grid, node0, node1, new_node);
+#endif
 
   for (cell_in_list = 0; cell_in_list < ncell; cell_in_list++) {
     cell = cell_to_split[cell_in_list];
@@ -464,6 +491,9 @@ REF_FCN REF_STATUS ref_split_edge(REF_GRID ref_grid, REF_INT node0,
     RSS(ref_cell_add(ref_cell, nodes, &new_cell), "add node1 version");
   }
 
+#ifdef NASA_REFINE_VERIF
+  ref_verif_op("accept", "split_edge", ref_grid, node0, node1, new_node);
+#endif
   return REF_SUCCESS;
 }
 
